@@ -92,10 +92,10 @@ def specBin (psBefore : PState) (ss : SState) (newId : Nat) (mres : String) (op 
       -- refusals
       let dtA := match ta, la with | some _, _ => dtOf a | _, some l => litDt l | _, _ => "?"
       let dtB := match tb, lb with | some _, _ => dtOf b | _, some l => litDt l | _, _ => "?"
-      -- a refusal leaves every operand as it was; the content of a reuse/incr destination is unspecified afterwards
+      -- a refusal leaves every tensor but the designated destination (reuse / incr / the unsafe operand) as it was;
+      -- the destination's content is unspecified afterwards
       let refuse (ss : SState) : SOut :=
-        let rd := (match reuseTok with | some t => idOf t | none => []) ++ (match incrTok with | some t => idOf t | none => [])
-        fin (rd.foldl (fun ss i => ss.setObj i none) ss) (some "r=err")
+        fin (dests.foldl (fun ss i => ss.setObj i none) ss) (some "r=err")
       if !tc.contains tdt || dtA != dtB || (isArith && !(kernelTypes op).contains tdt) then refuse ss else
       let shapesOk := match ta, tb with
         | some (_, x), some (_, y) => some (x.idx.shape == y.idx.shape, totalSize x.idx.shape == totalSize y.idx.shape)
